@@ -25,7 +25,7 @@ from vf.gen import types as T
 P = 'C03'
 META = {
     'level': 'exploration',
-    'rule': ('histories of commit / abort(crash point k) / reject / commit_fail / entity-mutate / published-copy-mutate '
+    'rule': ('histories of commit / abort(crash point k) / reject / commit_fail / entity-mutate / entity-refresh (update() then nested write) / retained-mutate (write to a getter result after its commit) / published-copy-mutate '
              'steps over all transaction kinds on tests/mdib_two_mds.xml; non-trivial = the body modified at least one '
              'object before the fault, or a nested write at depth >= 2 was performed; distinct by history'),
     'assumptions': ['reports are sent only from the `transaction` and `rt_updates` observables of ProviderMdib '
@@ -150,6 +150,7 @@ class Runner:
         self.findings = []
         self.nontrivial = False
         self.classes = set()
+        self.retained = []  # objects handed out by the getters of the last committed transaction
 
     def _on_transaction(self, result):
         self.fired += 1
@@ -217,6 +218,8 @@ class Runner:
             # a commit that fails on its own: atomicity applies
             self._expect_unchanged(step, before, fired0, f'commit failed with {type(raised).__name__}: {raised}'[:200],
                                    f'commit-failed/{R.exc_sig(raised)}')
+        elif ctl.handed:
+            self.retained = [(o, op[0]) for o in ctl.handed]
         if did_nested:
             self.nontrivial = True
             self.classes.add('nested-commit')
@@ -236,19 +239,25 @@ class Runner:
             self._expect_unchanged(step, before, fired0, f'{type(raised).__name__}: {raised}'[:200],
                                    f'commit-failed/{R.exc_sig(raised)}')
 
-    def _expect_unchanged(self, step, before, fired0, why, bucket):
+    def _expect_unchanged(self, step, before, fired0, why, bucket, with_part=True):
         after = full_snapshot(self.mdib)
         d = diff_snapshot(before, after)
         if d:
             first = str(d[0][0])
             part = first.split('.')[-1] if '.' in first else first.split('[')[0]
-            self.findings.append((f'{P}/not-atomic/{bucket}/{part}',
+            self.findings.append((f'{P}/not-atomic/{bucket}/{part}' if with_part else f'{P}/not-atomic/{bucket}',
                                   f'{why}, but the MDIB changed: {[list(map(str, x)) for x in d[:3]]}'))
         if self.fired != fired0:
             self.findings.append((f'{P}/report-after-failure/{bucket}', f'{why}, but the transaction observable fired'))
 
     def step_reject(self, step):
-        _, kind, pre_op, sel = step
+        """A call that the API documents as rejected.  caught=False: the exception leaves the transaction body (the
+        transaction is aborted); caught=True: the application catches it inside the body and leaves the body normally
+        - the rejected call itself must not have contributed anything to the commit."""
+        _, kind, pre_op, sel = step[:4]
+        caught = bool(step[4]) if len(step) > 4 else False  # noqa: PLR2004
+        if caught and (pre_op or kind == 'dup_get'):
+            caught = False  # (with a legitimate modification in the same body the commit is not empty)
         mdib, inv = self.mdib, self.inv
         before = full_snapshot(mdib)
         fired0 = self.fired
@@ -256,24 +265,45 @@ class Runner:
         alert = inv.states['alert'][sel % len(inv.states['alert'])][0] if inv.states['alert'] else None
         raised = None
         modified = False
+        inner = []
+
+        def rejected(fn):
+            if not caught:
+                fn()
+                return
+            try:
+                fn()
+            except Exception as ex:  # noqa: BLE001
+                if not R.exc_in_library(ex):
+                    raise
+                inner.append(ex)
         try:
-            if kind in ('wrong_type', 'dup_get', 'unknown', 'multistate_entity'):
+            if kind in ('wrong_type', 'dup_get', 'unknown', 'multistate_entity', 'write_entities_partial'):
                 with mdib.metric_state_transaction() as mgr:
                     if pre_op:
                         s = mgr.get_state(metric)
                         s.ActivationState = mdib.data_model.pm_types.ComponentActivation.OFF
                         modified = True
                     if kind == 'wrong_type':
-                        mgr.get_state(alert)
+                        rejected(lambda: mgr.get_state(alert))
                     elif kind == 'dup_get':
                         if not pre_op:
                             mgr.get_state(metric)
                         mgr.get_state(metric)
                     elif kind == 'unknown':
-                        mgr.get_state('vf_no_such_handle')
+                        rejected(lambda: mgr.get_state('vf_no_such_handle'))
+                    elif kind == 'write_entities_partial':
+                        # a list whose last member is of the wrong kind: the call is rejected as a whole
+                        others = [h for h, _c in inv.states['metric'] if h != metric or not pre_op]
+                        good = [mdib.entities.by_handle(h) for h in others[sel % 3: sel % 3 + 2]]
+                        bad = mdib.entities.by_handle(alert) if (alert and sel % 2) else mdib.entities.by_handle(
+                            inv.context_descriptors[0][0])
+                        for e in good:
+                            e.state.ActivationState = mdib.data_model.pm_types.ComponentActivation.OFF
+                        rejected(lambda: mgr.write_entities([*good, bad]))
                     else:
                         ent = mdib.entities.by_handle(inv.context_descriptors[0][0])
-                        mgr.write_entity(ent)
+                        rejected(lambda: mgr.write_entity(ent))
             elif kind in ('add_existing', 'state_without_descr'):
                 with mdib.descriptor_transaction() as mgr:
                     if pre_op:
@@ -282,9 +312,10 @@ class Runner:
                         modified = True
                     if kind == 'add_existing':
                         existing = mdib.descriptions.handle.get_one(alert or metric)
-                        mgr.add_descriptor(existing.mk_copy())
+                        rejected(lambda: mgr.add_descriptor(existing.mk_copy()))
                     else:
-                        mgr.get_state(alert or inv.states['metric'][(sel + 1) % len(inv.states['metric'])][0])
+                        rejected(lambda: mgr.get_state(
+                            alert or inv.states['metric'][(sel + 1) % len(inv.states['metric'])][0]))
             elif kind == 'ctx_unknown_modified':
                 with mdib.context_state_transaction() as mgr:
                     ent = mdib.entities.by_handle(inv.context_descriptors[sel % len(inv.context_descriptors)][0])
@@ -292,19 +323,25 @@ class Runner:
                         ent.new_state('vf_rej_state')
                         mgr.write_entity(ent, ['vf_rej_state'])
                         modified = True
-                    mgr.write_entity(ent, ['vf_no_such_state'])
+                    rejected(lambda: mgr.write_entity(ent, ['vf_no_such_state']))
         except Exception as ex:  # noqa: BLE001
             if not R.exc_in_library(ex):
                 raise
             raised = ex
-        self.classes.add(f'reject:{kind}')
+        self.classes.add(f'reject:{kind}' + (':caught-inside' if caught else ''))
+        if caught and raised is None and inner:
+            raised = inner[0]
+        elif caught and raised is not None and inner:
+            # the call was rejected, caught, and then the commit of the (empty) transaction failed as well
+            pass
         if raised is None:
             self.findings.append((f'{P}/not-rejected/{kind}', f'the call documented as rejected was accepted ({kind})'))
             return
-        if modified:
+        if modified or caught:
             self.nontrivial = True
-        self._expect_unchanged(step, before, fired0, f'rejected call {kind} raised {type(raised).__name__}',
-                               f'reject/{kind}')
+        self._expect_unchanged(step, before, fired0, f'rejected call {kind} raised {type(raised).__name__}'
+                               + (' (caught inside the transaction body, which then ended normally)' if caught else ''),
+                               f'reject/{kind}' + ('/caught-inside' if caught else ''))
 
     def step_commit_fail(self, step):
         _, which, sel = step
@@ -365,6 +402,59 @@ class Runner:
             self._expect_unchanged(step, before, fired0, f'nested write on entities.by_handle({h!r}) without commit',
                                    'entity-mutate')
 
+    def step_entity_refresh(self, step):
+        """An entity is obtained, a transaction commits, the entity is refreshed with update() and then written to at
+        a nested position: still a private copy."""
+        _, sel, op, a, b = step
+        handles = sorted(d.Handle for d in self.mdib.descriptions.objects)
+        h = sel[1] if isinstance(sel, list) else handles[sel % len(handles)]  # ['handle', h]: that very entity
+        if h not in handles:
+            return
+        try:
+            ent = self.mdib.entities.by_handle(h)
+        except TypeError:
+            return
+        self._run_op(op, None, None)
+        if self.mdib.descriptions.handle.get_one(h, allow_none=True) is None:
+            return
+        try:
+            ent.update()
+        except Exception as ex:  # noqa: BLE001
+            if not R.exc_in_library(ex):
+                raise
+            self.classes.add(f'entity-update-raises/{R.exc_sig(ex)}')  # not a matter of this property
+            return
+        before = full_snapshot(self.mdib)
+        fired0 = self.fired
+        targets = [ent.descriptor] + (list(ent.states.values()) if ent.is_multi_state else [ent.state])
+        wrote = False
+        for t in targets:
+            if t is not None and nested_write(t, a, b, min_depth=1) is not None:
+                wrote = True
+        self.classes.add('entity-refresh')
+        if wrote:
+            self.nontrivial = True
+            self._expect_unchanged(step, before, fired0, f'nested write on entity {h!r} after entity.update() without commit',
+                                   'entity-refresh')
+
+    def step_retained_mutate(self, step):
+        """The application kept an object that a transaction getter handed out and writes to it after that transaction
+        has committed: the MDIB changes only through a commit."""
+        _, sel, a, b = step
+        if not self.retained:
+            return
+        obj, opname = self.retained[sel % len(self.retained)]
+        before = full_snapshot(self.mdib)
+        fired0 = self.fired
+        path = nested_write(obj, a, b, min_depth=1)
+        self.classes.add('retained-mutate')
+        if path is not None:
+            self.nontrivial = True
+            self._expect_unchanged(step, before, fired0, f'write {path} on an object handed out by a getter of the committed '
+                                   f'{opname} transaction ({type(obj).__name__})',
+                                   'retained-mutate/' + ('descriptor' if obj.is_descriptor_container else 'context-state'
+                                                         if obj.is_context_state else 'state'), with_part=False)
+
     def step_published_mutate(self, step):
         _, sel, a, b = step
         if not self.published:
@@ -398,12 +488,15 @@ def st_history(inv, max_steps):
         st.tuples(st.just('abort'), op, st.integers(0, 6), nested).map(list),
         st.tuples(st.just('abort'), op, st.integers(0, 6), nested).map(list),
         st.tuples(st.just('reject'), st.sampled_from(['wrong_type', 'dup_get', 'unknown', 'multistate_entity',
-                                                      'add_existing', 'state_without_descr', 'ctx_unknown_modified']),
-                  st.booleans(), st.integers(0, 20)).map(list),
+                                                      'add_existing', 'state_without_descr', 'ctx_unknown_modified',
+                                                      'write_entities_partial', 'write_entities_partial']),
+                  st.booleans(), st.integers(0, 20), st.booleans()).map(list),
         st.tuples(st.just('commit_fail'), st.sampled_from(['ctx_remove_via_entity', 'dup_ctx_handle_add_state']),
                   st.integers(0, 10)).map(list),
         st.tuples(st.just('entity_mutate'), st.integers(0, 200), st.integers(0, 40), st.integers(0, 5)).map(list),
         st.tuples(st.just('published_mutate'), st.integers(0, 50), st.integers(0, 40), st.integers(0, 5)).map(list),
+        st.tuples(st.just('retained_mutate'), st.integers(0, 8), st.integers(0, 40), st.integers(0, 5)).map(list),
+        st.tuples(st.just('entity_refresh'), st.integers(0, 200), op, st.integers(0, 40), st.integers(0, 5)).map(list),
     )
     dels = inv.deletable + [h for h, _c, _p in inv.pool]
     upd = {h: c for h, c in inv.updatable}
@@ -414,7 +507,13 @@ def st_history(inv, max_steps):
             ['abort', ['descr_recreate', t[0], t[3]], t[1], None],
             ['commit', ['descr_recreate', t[0], t[3]], None]]))
     _ = dels
-    blocks = st.one_of(steps.map(lambda s_: [s_]), steps.map(lambda s_: [s_]), steps.map(lambda s_: [s_]), cycle)
+    refresh_ctx = st.sampled_from(range(len(inv.context_descriptors))).flatmap(lambda i: st.tuples(
+        MP._state_spec(inv.context_descriptors[i][1]), st.sampled_from(['vf_ctx_0', 'vf_ctx_1', 'vf_ctx_3']),
+        st.sampled_from(['Assoc', 'Dis', 'No']), MP.IFACE, st.integers(0, 40), st.integers(0, 5)).map(
+        lambda t, i=i: [['entity_refresh', ['handle', inv.context_descriptors[i][0]],
+                         ['ctx_new', inv.context_descriptors[i][0], t[1], t[0], t[2], t[3]], t[4], t[5]]]))
+    blocks = st.one_of(steps.map(lambda s_: [s_]), steps.map(lambda s_: [s_]), steps.map(lambda s_: [s_]), cycle,
+                       refresh_ctx)
     return st.lists(blocks, min_size=1, max_size=max_steps).map(lambda bl: [s_ for b in bl for s_ in b][:max_steps + 4])
 
 
